@@ -78,6 +78,30 @@ def guard_literals(arm):
 # ----------------------------------------------------------------------------------------------
 
 
+def _guard_on_variant(g, variant):
+    """three-valued value of an arm guard when the event is `variant` (e.g. 'Event::Eof'): decides guards built from
+    `matches!(e, Event::A(_) | Event::B(_))`, `!`, `&&`, `||`; anything else is unknown (None)"""
+    g = unwrap(g)
+    if not isinstance(g, dict):
+        return None
+    k = g.get("k")
+    if k == "Unary" and g.get("op") == "!":
+        v = _guard_on_variant(g["e"], variant)
+        return None if v is None else (not v)
+    if k == "Binary" and g.get("op") in ("&&", "||"):
+        a, b = _guard_on_variant(g["l"], variant), _guard_on_variant(g["r"], variant)
+        if g["op"] == "&&":
+            return False if (a is False or b is False) else (True if (a is True and b is True) else None)
+        return True if (a is True or b is True) else (False if (a is False and b is False) else None)
+    if k == "Match" and len(g.get("arms", [])) == 2 and all(a.get("guard") is None for a in g["arms"]):
+        vals = [lit_value(a["body"]) for a in g["arms"]]
+        if all(isinstance(v, bool) for v in vals) and "quick_xml::events::Event" in (peel(g["scrut"]).get("ty") or ""):
+            for a, v in zip(g["arms"], vals):
+                if pat_covers(a["pat"], [variant]):
+                    return v
+    return None
+
+
 def r_eof(ctx, rep, files=None, floor=15):
     n = 0
     for cfg in ctx.configs():
@@ -95,7 +119,9 @@ def r_eof(ctx, rep, files=None, floor=15):
                     if not pat_covers(arm["pat"], chain):
                         continue
                     if arm.get("guard") is not None:
-                        continue   # may not fire
+                        gv = _guard_on_variant(arm["guard"], "Event::Eof")
+                        if gv is not True:
+                            continue   # does not fire on Eof, or may not
                     leaves = always_leaves(arm["body"], em["targets"])
                     verdict = (i, arm, leaves)
                     break
@@ -408,7 +434,8 @@ def r_rph(ctx, rep):
     found = 0
     for fn in F.fns:
         for em in event_matches(fn):
-            arms = em["match"]["arms"]
+            from .kit import virtual_arms
+            arms = virtual_arms(em["match"])
             rph_arms = [a for a in arms if "rPh" in guard_literals(a)]
             if not rph_arms:
                 continue
